@@ -1,5 +1,6 @@
 import KvarnModel.Drv.Util
 import KvarnModel.Negotiate
+import KvarnModel.Memo
 namespace Drv.C06
 open Wire Drv Negotiate
 
@@ -8,6 +9,62 @@ def codingOf (s : String) : Option Coding :=
   if s = "zstd" then some .zstd else if s = "br" then some .br else if s = "gzip" then some .gzip
   else if s = "identity" then some .identity else none
 def codingStr : Coding → String | .identity => "identity" | .gzip => "gzip" | .br => "br" | .zstd => "zstd"
+
+/-! trace validation for the memo: the hook events of one cell (`e` = a caller entered `get_<coding>`, `c` = the
+initialiser was started) are replayed in `Memo`; a `c` needs a caller that has entered, an empty cell and the permit —
+which can only have come back if one of the `cancels` aborted callers was holding it. -/
+def memoEnc (l : Nat) (b : List UInt8) : List UInt8 := l.toUInt8 :: b
+def memoStep (s : Memo.St) (i : Nat) : Memo.St := Memo.step memoEnc (fun _ => 1) [7] s i
+
+def holderIdx (s : Memo.St) : Option Nat :=
+  s.tasks.findIdx? (fun pc => match pc with | .computing => true | .computed _ => true | _ => false)
+def idleIdx (s : Memo.St) : Option Nat :=
+  s.tasks.findIdx? (fun pc => match pc with | .start => true | .waiting => true | _ => false)
+
+def memoReplay : Memo.St → Nat → List String → Nat → Except String Memo.St
+  | s, _, [], _ => .ok s
+  | s, budget, ev :: evs, j =>
+    if ev = "e" then memoReplay { s with tasks := s.tasks ++ [.start] } budget evs (j + 1)
+    -- the variant was compressed by an earlier request (only as the first event)
+    else if ev = "w" then
+      (if j = 0 then memoReplay { s with cell := some [9], permit := false, stores := 1, computes := 1 } budget evs (j + 1)
+       else .error s!"warm-not-first@{j}")
+    else if ev = "c" then
+      if s.cell.isSome then .error s!"compute-after-store@{j}" else
+      -- the permit: free, or freed by the departure of its holder
+      let r : Except String (Memo.St × Nat) :=
+        if s.permit then .ok (s, budget) else
+        match holderIdx s with
+        | some h => if budget > 0 then .ok (Memo.cancel s h, budget - 1) else .error s!"compute-while-held@{j}"
+        | none => .error s!"permit-lost@{j}"
+      match r with
+      | .error e => .error e
+      | .ok (s1, b1) =>
+        match idleIdx s1 with
+        | none => .error s!"compute-without-caller@{j}"
+        | some i =>
+          let s2 := memoStep s1 i                       -- start -> waiting (or stays waiting: takes the permit)
+          let s3 := match s2.tasks[i]? with | some Memo.PC.waiting => memoStep s2 i | _ => s2
+          (match s3.tasks[i]? with
+            | some Memo.PC.computing => memoReplay s3 b1 evs (j + 1)
+            | _ => .error s!"no-acquire@{j}")
+    else .error s!"bad-event@{j}"
+
+/-- let everybody finish: the holder stores, the others find the value -/
+def memoFinish (s : Memo.St) : Memo.St :=
+  let s1 := match holderIdx s with | some h => memoStep (memoStep s h) h | none => s
+  (List.range s1.tasks.length).foldl (fun st i => memoStep (memoStep st i) i) s1
+
+def memoTrace (cancels : Nat) (evs : List String) : String :=
+  match memoReplay {} cancels evs 0 with
+  | .error e => e
+  | .ok s =>
+    let f := memoFinish s
+    let dones := f.tasks.filterMap (fun pc => match pc with | .done r => some r | _ => none)
+    let same := dones.all (fun r => f.cell == some r)
+    if s.cell.isNone && (holderIdx s).isNone && (idleIdx s).isSome then "missing-compute" else
+    if f.stores ≤ 1 && same && (f.tasks.all fun pc => match pc with | .done _ => true | .cancelled => true | _ => false)
+    then "ok" else "model-inconsistent"
 
 def handle : List String → Option String
   | ["list", h] => do
@@ -22,5 +79,10 @@ def handle : List String → Option String
     pure (match negotiate (← parseBool hc) (← len.toNat?) m a (← codingOf pref) with
       | .ok c => "200 " ++ codingStr c
       | .error _ => "406")
+  -- memo <cancels> <trace|trace|…> ; a trace is a string over {e, c}
+  | ["memo", cancels, traces] => do
+    let c ← cancels.toNat?
+    let outs := ((if traces = "-" then "" else traces).splitOn "|").map (fun t => memoTrace c (t.toList.map (fun ch => String.singleton ch)))
+    pure (match outs.find? (· ≠ "ok") with | some e => e | none => "ok")
   | _ => none
 end Drv.C06
